@@ -360,6 +360,23 @@ theorem step_refines (cfg : Cfg) (hg : GoodCfg cfg) (s : Txn) (t : STxn) (h : TS
   cases op with
   | commit => exact lift (end_refines cfg s t h true)
   | rollback => exact lift (end_refines cfg s t h false)
+  | commitRaise =>
+    simp only [step, toSOp, sStep, endTxnRaise, sEndRaise, ← h.ended, ← h.ro, ← h.changed]
+    by_cases he : s.ended = true
+    · rw [if_pos he, if_pos he]; exact ⟨h, ResRel.of_eq rfl⟩
+    rw [if_neg he, if_neg he]
+    by_cases hr : s.readOnly = true
+    · rw [if_pos hr, if_pos hr]
+      exact ⟨{ zone := h.zone, ver := h.ver, izone := h.izone, iver := h.iver, ro := rfl, ended := rfl, changed := rfl },
+             ResRel.of_eq rfl⟩
+    rw [if_neg hr, if_neg hr]
+    by_cases hc : s.changed = true
+    · rw [if_pos hc, if_pos hc]
+      exact ⟨{ zone := h.zone, ver := h.ver, izone := h.izone, iver := h.iver, ro := rfl, ended := rfl, changed := rfl },
+             ResRel.of_eq rfl⟩
+    · rw [if_neg hc, if_neg hc]
+      exact ⟨{ zone := h.zone, ver := h.ver, izone := h.izone, iver := h.iver, ro := rfl, ended := rfl, changed := rfl },
+             ResRel.of_eq rfl⟩
   | add args veto =>
     unfold step toSOp
     cases hp : parseAddArgs args with
